@@ -6,6 +6,9 @@ import os
 V = os.path.dirname(os.path.dirname(os.path.abspath(__file__)))
 
 CLAIMS = {
+ "C01": ("Structural clauses only: all 10 digit-width/multiply configurations build; no bn_* status dropped (a capacity overflow detected in a leaf cannot be followed by a success return); bn_t locals initialised before use on every path; every variable divisor excluded from zero by a dominating test; variable shift amounts bounded by modulo/mask/guard (remaining ones listed undecided in evidence); no integer-promotion-sensitive digit expression in the 8/16-bit builds. Numerical exactness is NOT decided.",
+         "Trusts clang 14 front end/CFG, derived status set, tabled exceptions confirmed by reading.",
+         "static analysis: status-discipline dataflow, must-init typestate, guard evaluation for divisors/shifts, promotion lint per configuration"),
  "C02": ("Structural clauses only: all 960 coordinate/algorithm configurations build with every dispatch macro resolving to a declared function; no status dropped in elliptic_curve.h; bn/point locals and precompute-table elements initialised before use (index agreement); exceptional-case tests (x-equal, y-zero, operand at infinity, scalar 0) guard the general formulas with the right polarity; the 32 built-in curve records are arithmetically consistent (python big integers: p,n prime, non-singular, G on curve, nG=O, flag => a=p-3). Correctness of the group-law formulas and agreement between algorithms are NOT decided.",
          "Trusts clang 14 front end/CFG, must-init dataflow, python big-integer arithmetic with Miller-Rabin (12 bases).",
          "static analysis: configuration compile witnesses, typestate dataflow, guard dominance, constant-table arithmetic"),
